@@ -308,6 +308,8 @@ def run_traced(job, opt=None):
             except Exception as e:  # noqa
                 u["best_trend"] = {"err": type(e).__name__}
             out["utils"] = u
+            # the utilities are readers: the recorded history must be what it was before they were called
+            out["evolution_after_utils"] = [[_enc_agent(a) for a in pop.agents] for pop in res.evolution]
     except BaseException as e:  # noqa
         tb = traceback.extract_tb(e.__traceback__)
         frames = [f for f in tb if "/pyvolutionary/" in f.filename]
